@@ -20,6 +20,13 @@ random rotations (one of them combined with a far translation), near-identity ro
 near-quarter-turns, each combined with a translation.  The rotation matrices are built here (Rodrigues / signed
 permutations), not with porepy.
 
+Second family (cells with different numbers of faces -- the statement says any grid, every C19 grid is uniform): hand-built
+polygonal 2-D grids (quadrilateral + triangle, pentagon + triangle, hexagon in a ring of quadrilaterals, octagon + triangles, a
+coarse cell with a hanging node, an agglomerated non-convex L-shaped cell, lattices of rectangles partly split into triangles
+= ``props.C15.mixed_grid``), each with consistently oriented counter-clockwise / clockwise node loops (general branch of
+``_compute_geometry_2d``) and with sorted face nodes and two sign assignments (convex-cell branch), plain / node-perturbed /
+affine / scaled by 1e-3 and 1e3, and their prismatic extrusions to 3-D (cells with 5..10 faces); same motions.
+
 Tolerance: 1e-10 * (1 + M / L) relative, M = largest coordinate magnitude after the motion, L = grid diameter
 (differences of coordinates of size M lose M/L digits; nothing else is tolerated).
 
@@ -40,6 +47,9 @@ Seeded changes detected through the later additions:
          under the far translations)
   * grid.py _compute_geometry_2d orientation check 2/3: ``len_normal < 1e-5 mean(area)^2`` -> ``len_normal == 0``
       -> exit 1, "face normals rotate with the motion" (exactly mirrored halves rotated into a non-coordinate plane)
+  * grid.py _compute_geometry_2d: temporary cell centres divided by the mean number of faces per cell instead of the per-cell count
+      -> exit 1, "cell centres move with the motion" (polygonal grids with cells of different numbers of faces, every motion that
+         takes the grid plane off the origin; invisible on uniform grids and in planes through the origin)
 """
 from __future__ import annotations
 
@@ -57,8 +67,10 @@ META = {
     "text": "Bounded assurance only: volumes/areas invariant and centres/normals co-rotating for every enumerated grid (C19 family) and "
             "every enumerated motion (translations up to 1e3-4e4 grid diameters from the origin, all 24 axis-aligned rotations, seeded "
             "random, near-identity and near-quarter-turn rotations), including 1-D and 2-D grids embedded in 3-D, grids with cells of "
-            "size 1e-5..1e4, 2-D grids with mirrored face-disconnected parts and 2-D grids with one non-convex cell. Improper motions "
-            "(reflections) are outside the statement.",
+            "size 1e-5..1e4, 2-D grids with mirrored face-disconnected parts and 2-D grids with one non-convex cell; and for hand-built "
+            "polygonal 2-D grids whose cells differ in their number of faces (3..8 faces, hanging nodes, one non-convex agglomerated cell; "
+            "consistently oriented and sorted-face-node incidences) and their prismatic extrusions (<= 13 cells per layer, <= 2 layers). "
+            "Improper motions (reflections) are outside the statement.",
     "note": "the reference is the same real function on the grid in natural position (the property is relational); rotation matrices are "
             "generated independently of porepy and checked orthonormal to 1e-14; tolerance 1e-10*(1+M/L)",
 }
@@ -111,6 +123,223 @@ def _motions(rng, quick, rodrigues):
     return ms
 
 
+# ----------------------------------------------------------------------------- grids whose cells have different numbers of faces
+# The C19 family is uniform per grid (all cells of a grid have the same number of faces).  The statement quantifies over any grid,
+# so general polygonal grids (triangles next to quadrilaterals, pentagons, hexagons, an octagon, hanging nodes, an agglomerated
+# L-shaped cell) and their prismatic extrusions are added here, hand-built from node loops the way such grids enter porepy.
+
+ORIENTS = ("loops", "cw", "sorted", "sorted-alt")
+_LOOPS: dict = {}
+
+
+def poly_grid(pp, xy, polys, orient):
+    """pp.Grid(2, ...) from node coordinates ``xy`` (2 x N) and counter-clockwise node loops ``polys``.
+    orient: 'loops'      face nodes in the direction of the loop of the first cell that mentions the face, cell_faces +1 for that
+                         cell and -1 for the other one (consistently oriented, counter-clockwise loops)
+            'cw'         the same with every loop traversed clockwise (consistently oriented, clockwise)
+            'sorted'     face nodes sorted by index, +1 for the first cell (not a consistently oriented grid -> porepy's branch for
+                         convex cells; the convention of props.C15.mixed_grid)
+            'sorted-alt' face nodes sorted, the first cell of face f gets +1 if f is even and -1 if f is odd (both signs occur on
+                         boundary faces, as on extracted subgrids)"""
+    import scipy.sparse as sps
+
+    xy = np.asarray(xy, dtype=float)
+    polys = [tuple(int(v) for v in p) for p in polys]
+    if orient == "cw":
+        polys = [p[::-1] for p in polys]
+    faces, fn, rows, cols, vals = {}, [], [], [], []
+    for c, poly in enumerate(polys):
+        for k in range(len(poly)):
+            p, q = poly[k], poly[(k + 1) % len(poly)]
+            e = frozenset((p, q))
+            if e not in faces:
+                f = len(faces)
+                first = 1 if (orient != "sorted-alt" or f % 2 == 0) else -1
+                faces[e] = (f, first)
+                fn += [p, q] if orient in ("loops", "cw") else [min(p, q), max(p, q)]
+                sgn = first
+            else:
+                f, first = faces[e]
+                sgn = -first
+            rows.append(f)
+            cols.append(c)
+            vals.append(sgn)
+    nf = len(faces)
+    nodes = np.vstack([xy[:2], np.zeros(xy.shape[1])])
+    face_nodes = sps.csc_matrix((np.ones(2 * nf, dtype=bool), np.array(fn), np.arange(0, 2 * nf + 1, 2)), shape=(nodes.shape[1], nf))
+    cell_faces = sps.csc_matrix((np.array(vals), (np.array(rows), np.array(cols))), shape=(nf, len(polys)))
+    return pp.Grid(2, nodes, face_nodes, cell_faces, "polygons with different numbers of faces")
+
+
+def _poly_shapes():
+    """name -> (xy, counter-clockwise loops); numbers of faces per cell in brackets"""
+    c, s = 0.5, math.sqrt(3.0) / 2.0
+    hexa = [(1.0, 0.0), (c, s), (-c, s), (-1.0, 0.0), (-c, -s), (c, -s)]
+    return {
+        # [4, 3] unit square with a roof triangle
+        "house": ([(0, 0), (1, 0), (1, 1), (0, 1), (0.5, 1.6)], [(0, 1, 2, 3), (3, 2, 4)]),
+        # [5, 3] unit square with one corner cut off
+        "cut-corner": ([(0, 0), (1, 0), (1, 0.6), (0.6, 1), (0, 1), (1, 1)], [(0, 1, 2, 3, 4), (2, 5, 3)]),
+        # [6, 4 x 6] regular hexagon inside a ring of six quadrilaterals
+        "hexagon-ring": (hexa + [(2 * x, 2 * y) for x, y in hexa], [tuple(range(6))] + [(k, 6 + k, 6 + (k + 1) % 6, (k + 1) % 6) for k in range(6)]),
+        # [8, 3 x 4] octagon inside a square
+        "octagon": ([(1, 0), (2, 0), (3, 1), (3, 2), (2, 3), (1, 3), (0, 2), (0, 1), (0, 0), (3, 0), (3, 3), (0, 3)],
+                    [tuple(range(8)), (8, 0, 7), (1, 9, 2), (3, 10, 4), (5, 11, 6)]),
+        # [4, 4, 5] local refinement: the coarse cell has a hanging node on its left edge (five faces, two of them collinear)
+        "hanging-node": ([(0, 0), (1, 0), (2, 0), (0, 0.5), (1, 0.5), (0, 1), (1, 1), (2, 1)], [(0, 1, 4, 3), (3, 4, 6, 5), (1, 2, 7, 6, 4)]),
+        # [6, 4, 5] agglomerated cells: a non-convex L-shaped hexagon, a square, a rectangle with a hanging node
+        "agglomerate": ([(0, 0), (2, 0), (3, 0), (2, 1), (3, 1), (1, 1), (0, 2), (1, 2), (3, 2)], [(0, 1, 3, 5, 7, 6), (1, 2, 4, 3), (5, 3, 4, 8, 7)]),
+    }
+
+
+def _poly_parts(pp, C19, args):
+    """(xy 2 x N, counter-clockwise loops, grid or None) of a 'poly2d' description: a named shape, or a lattice of rectangles
+    with some of them split into triangles (props.C15.mixed_grid; the loops are read off its incidences)."""
+    if "shape" in args:
+        xy, polys = _poly_shapes()[args["shape"]]
+        return np.array(xy, dtype=float).T, [tuple(p) for p in polys], None
+    from props import C15
+
+    lat = args["lattice"]
+    g0 = C15.mixed_grid(pp, lat["n"], lat["phys"], lat["split"])
+    key = repr(lat)
+    if key not in _LOOPS:  # the loops depend on the description only; the grid object is always a fresh one
+        CF, fnodes = C19.topo(g0)
+        _LOOPS[key] = [tuple(l) for l in C19.cell_loops_2d(CF, fnodes, np.array(g0.nodes, dtype=float))]
+    return np.array(g0.nodes[:2], dtype=float), _LOOPS[key], g0
+
+
+def build(pp, C19, family, args):
+    """C19.build extended by 'poly2d' (polygons with different numbers of faces) and 'poly3d' (their prismatic extrusion)."""
+    if family == "poly2d":
+        xy, loops, g0 = _poly_parts(pp, C19, args)
+        if g0 is not None and args["orient"] == "sorted":
+            return g0  # props.C15.mixed_grid as it is
+        return poly_grid(pp, xy, loops, args["orient"])
+    if family == "poly3d":
+        g2 = build(pp, C19, "poly2d", args)
+        with warnings.catch_warnings():
+            warnings.simplefilter("ignore")
+            g3, _, _ = pp.grid_extrusion.extrude_grid(g2, np.array(args["z"], dtype=float))
+        return g3
+    return C19.build(pp, family, args)
+
+
+def _loops_convex(nat, loops, eps):
+    for vo in loops:
+        Q = nat[:2, list(vo)]
+        m = len(vo)
+        for i in range(m):
+            a, b, c = Q[:, i], Q[:, (i + 1) % m], Q[:, (i + 2) % m]
+            if (b[0] - a[0]) * (c[1] - b[1]) - (b[1] - a[1]) * (c[0] - b[0]) < eps:
+                return False
+    return True
+
+
+def poly_valid(pp, C19, case, nat):
+    """requires for the polygonal families, checked on the natural-position nodes without porepy geometry: every cell is a simple
+    polygon with positive area in the loop direction of the construction; convex (angles of 180 degrees at hanging nodes admitted)
+    when the grid is not consistently oriented ('sorted*') or extruded -- porepy documents its general 2-D branch for consistently
+    oriented grids only.  Extruded grids: the layers are images of the base under one affine map (checked), so cells are convex
+    prisms with planar faces."""
+    xy, loops, _ = _poly_parts(pp, C19, case["args"])
+    n2 = xy.shape[1]
+    if case["dim"] == 3:
+        # nat must be A [x; y; z_k] for the recorded affine map A with det >= 0.2; the polygons are then judged in the base plane
+        z = np.array(case["args"]["z"], dtype=float)
+        if np.any(np.diff(z) <= 0) or z[0] < 0 or nat.shape[1] != n2 * z.size:
+            return False
+        X0 = np.vstack([np.tile(xy, (1, z.size)), np.repeat(z, n2)])
+        A = np.array(case.get("A", np.eye(3)), dtype=float)
+        if np.linalg.det(A) < 0.2 or np.max(np.abs(A @ X0 - nat)) > 1e-12 * (1 + np.max(np.abs(nat))):
+            return False
+        base = np.vstack([xy, np.zeros(n2)])
+    else:
+        if nat.shape[1] != n2 or np.any(nat[2] != 0.0):
+            return False
+        base = nat
+    h = float(np.max(np.ptp(base[:2], axis=1))) or 1.0
+    if not C19.polygons_valid(base, loops, 1e-3 * h, 1e-6 * h * h):
+        return False
+    if case["args"]["orient"].startswith("sorted") or case["dim"] == 3:
+        if not _loops_convex(base, loops, -1e-12 * h * h):
+            return False
+    return True
+
+
+def _poly_cases(pp, C19, rng, quick):
+    """yield case dicts (keys family, args, dim, nodes, op, kind[, A]) of the polygonal families in natural position"""
+    shapes = list(_poly_shapes())
+    lattices = [
+        {"n": [2, 1], "phys": [2.0, 1.0], "split": [[0, 0]]},
+        {"n": [2, 2], "phys": [1.0, 1.0], "split": [[0, 0], [1, 0]]},
+        {"n": [3, 2], "phys": [2.1, 1.3], "split": [[1, 0], [2, 1]]},
+        {"n": [3, 3], "phys": [3.0, 3.0], "split": [[1, 1]]},
+    ]
+    if not quick:
+        for nx, ny in itertools.product((1, 2, 3), repeat=2):
+            if nx * ny == 1:
+                continue
+            while True:
+                split = [[i, j] for j in range(ny) for i in range(nx) if rng.random() < 0.5]
+                if 0 < len(split) < nx * ny:
+                    break
+            lattices.append({"n": [nx, ny], "phys": [round(rng.uniform(0.5, 2.0) * nx, 3), round(rng.uniform(0.5, 2.0) * ny, 3)], "split": split})
+    meshes = [{"shape": s} for s in shapes] + [{"lattice": l} for l in lattices]
+    ops2 = ("plain", "perturb0", "affine0", "scale0") if quick else ("plain", "perturb0", "perturb1", "perturb2", "affine0", "affine1", "scale0", "scale1")
+    for k, mesh in enumerate(meshes):
+        xy, _, _ = _poly_parts(pp, C19, {**mesh, "orient": "loops"})
+        base = np.vstack([xy, np.zeros(xy.shape[1])])
+        dd = np.linalg.norm(base[:, :, None] - base[:, None, :], axis=0)
+        hmin = float(np.min(dd[dd > 0]))
+        variants = [("plain", base)]
+        for s in range(3):
+            amp = (0.1, 0.25, 0.05)[s] * hmin
+            pert = base.copy()
+            for i in range(base.shape[1]):
+                for d in range(2):
+                    pert[d, i] += amp * rng.uniform(-1, 1) / math.sqrt(2)
+            variants.append((f"perturb{s}", pert))
+        for s in range(2):
+            Aff = np.eye(3)
+            Aff[0, 1], Aff[1, 0] = rng.uniform(-0.4, 0.4), rng.uniform(-0.4, 0.4)
+            Aff[0, 0], Aff[1, 1] = rng.uniform(0.5, 1.5), rng.uniform(0.5, 1.5)
+            if np.linalg.det(Aff) >= 0.2:
+                variants.append((f"affine{s}", Aff @ base))
+        variants += [("scale0", 1e-3 * base), ("scale1", 1e3 * base)]
+        orients = ORIENTS if not quick else ("loops", "sorted") + (("cw",) if k % 3 == 0 else ("sorted-alt",) if k % 3 == 1 else ())
+        for orient in orients:
+            for op, nodes in variants:
+                if op in ops2:
+                    yield {"family": "poly2d", "args": {**mesh, "orient": orient}, "dim": 2, "nodes": nodes, "op": op, "kind": "poly"}
+    # prismatic extrusions: cells with 5, 6, 7, 8, 10 faces in one 3-D grid, triangular / quadrilateral / polygonal faces
+    meshes3 = ([({"shape": "house"}, [0.0, 1.0]), ({"lattice": lattices[0]}, [0.0, 0.5, 1.5])] if quick
+               else [({"shape": s}, [0.0, 0.5, 1.5]) for s in shapes if s != "agglomerate"] + [({"lattice": l}, [0.0, 1.0]) for l in lattices[:6]])
+    for k, (mesh, z) in enumerate(meshes3):
+        for orient in (("loops", "sorted")[k % 2:][:1] if quick else ("loops", "sorted")):
+            args = {**mesh, "orient": orient, "z": z}
+            xy, _, _ = _poly_parts(pp, C19, args)
+            X0 = np.vstack([np.tile(xy, (1, len(z))), np.repeat(np.array(z), xy.shape[1])])
+            yield {"family": "poly3d", "args": args, "dim": 3, "nodes": X0, "op": "plain", "kind": "poly", "A": np.eye(3)}
+            for s in range(1 if quick else 2):
+                Aff = np.eye(3)
+                for i in range(3):
+                    for j in range(3):
+                        if i != j:
+                            Aff[i, j] = rng.uniform(-0.4, 0.4)
+                    Aff[i, i] = rng.uniform(0.5, 1.5)
+                if np.linalg.det(Aff) >= 0.2:
+                    yield {"family": "poly3d", "args": args, "dim": 3, "nodes": Aff @ X0, "op": f"affine{s}", "kind": "poly", "A": Aff}
+
+
+def _json_poly_case(case):
+    out = {k: case[k] for k in ("family", "args", "dim", "op", "kind")}
+    out["nodes"] = np.asarray(case["nodes"]).tolist()
+    if "A" in case:
+        out["A"] = np.asarray(case["A"]).tolist()
+    return out
+
+
 def _geometry(g):
     with warnings.catch_warnings():
         warnings.simplefilter("ignore")
@@ -142,12 +371,17 @@ def compare(G0, G1, R, t, L, M):
 
 def run_case(pp, C19, case, R, t):
     """requires (validity, as C19) + both runs + ensures.  -> ('skip'|'ok', violations)"""
-    g = C19.build(pp, case["family"], case["args"])
+    g = build(pp, C19, case["family"], case["args"])
     dim = case["dim"]
     nat = np.array(case["nodes"], dtype=float)
     CF, fnodes = C19.topo(g)
     h = float(np.max(np.ptp(nat, axis=1))) or 1.0
-    if dim == 2 and case["op"].startswith("dart"):
+    if case["family"] in ("poly2d", "poly3d"):
+        if "_admissible" not in case:  # does not depend on the motion: decided once per case object (never stored in the inputs)
+            case["_admissible"] = poly_valid(pp, C19, case, nat)
+        if not case["_admissible"]:
+            return "skip", None
+    elif dim == 2 and case["op"].startswith("dart"):
         # non-convex cells of consistently oriented grids: simple polygons (as in C19)
         loops = C19.cell_loops_2d(CF, fnodes, np.array(g.nodes, dtype=float))
         if loops is None or not C19.polygons_valid(nat, loops, 1e-3 * h, 1e-6 * h * h):
@@ -170,7 +404,7 @@ def run_case(pp, C19, case, R, t):
         G0 = _geometry(g)
     except Exception:
         return "skip", None  # the reference position itself is C19's business
-    g2 = C19.build(pp, case["family"], case["args"])
+    g2 = build(pp, C19, case["family"], case["args"])
     g2.nodes = R @ nat + t[:, None]
     L = float(np.max(np.linalg.norm(nat - nat[:, [0]], axis=0))) or 1.0
     M = float(np.max(np.abs(g2.nodes)))
@@ -191,7 +425,10 @@ def run(rep):
                "independently as in C19) and a proper rotation "
                "(orthonormal to 1e-14, det=+1) built without porepy",
                "the reference geometry is the real function's output in natural position (relational property); its absolute "
-               "correctness is C19's obligation")
+               "correctness is C19's obligation",
+               "requires (polygonal family): cells are simple polygons of positive area (convex, hanging nodes admitted, when the "
+               "incidences are not consistently oriented node loops or the grid is extruded); the absolute geometry of these grids is "
+               "checked by no property here, only its equivariance")
     quick = rep.tier == "quick"
     motions = _motions(rep.rng, quick, C19.rodrigues)
     ops_ok = (("plain", "perturb0", "affine0", "prism0", "dart0") if quick
@@ -225,6 +462,33 @@ def run(rep):
                 for ob, detail in bad:
                     sig = f"{case['dim']}-d {case['family']} {case['op'].rstrip('0123456789')} {cls}"
                     rep.violation(ob, sig, inputs={**C19._json_case(case), "R": np.asarray(R).tolist(), "t": np.asarray(t).tolist(), "motion": tag},
+                                  detail=detail, confirmed=True)
+
+    rep.trust("pp.grid_extrusion.extrude_grid only as a generator of the topology of the extruded polygonal grids")
+    with rep.sweep(
+        "rigid-motion equivariance, cells with different numbers of faces",
+        rule="hand-built polygonal 2-D grids whose cells differ in their number of faces (quadrilateral + triangle, pentagon + triangle, "
+             "hexagon in a ring of quadrilaterals, octagon + triangles, coarse cell with a hanging node, agglomerated L-shaped cell; "
+             "lattices of rectangles with some of them split into triangles, props.C15.mixed_grid) x incidence convention (consistently "
+             "oriented counter-clockwise / clockwise loops | sorted face nodes with the two sign assignments -> convex-cell branch) x node "
+             "operation (plain | seeded perturbation of all nodes | in-plane affine image | scaled by 1e-3, 1e3), and their prismatic "
+             "extrusions to 3-D (plain | 3-D affine image), x the same motions; non-trivial = rotation differs from the identity; "
+             "distinct by (mesh, convention, operation, motion)",
+        bound="<= 13 cells per 2-D grid, <= 8 faces per 2-D cell, <= 2 layers of prisms; 10 (quick) / 18 (thorough) meshes; 17 / 58 motions per grid",
+        exhaustive=False,
+    ) as sw:
+        for case in _poly_cases(pp, C19, rep.rng, quick):
+            ck = (case["family"], repr(case["args"]), case["op"])
+            for tag, cls, R, t in motions:
+                status, bad = run_case(pp, C19, case, R, t)
+                if status == "skip":
+                    sw.skip()
+                    continue
+                sw.case(ck + (tag,), nontrivial=cls != "translation",
+                        sample={"family": case["family"], "args": case["args"], "op": case["op"], "motion": tag})
+                for ob, detail in bad:
+                    sig = f"{case['dim']}-d {case['family']} {case['args']['orient']} {case['op'].rstrip('0123456789')} {cls}"
+                    rep.violation(ob, sig, inputs={**_json_poly_case(case), "R": np.asarray(R).tolist(), "t": np.asarray(t).tolist(), "motion": tag},
                                   detail=detail, confirmed=True)
 
 
